@@ -180,6 +180,10 @@ func init() {
 					{N: "ctlRemoveByMsg", Msg: gen.Field("cm1")}, {N: "ctlRemoveTargetByMsg", Msg: gen.Field("cm2"), Var: "ARGS_GET", K: "-"}}}}}
 				base.Rules = append([]eRule{ctlRule, mkT(17, "ct1", "cm2"), mkT(18, "ct1", "cm1"), mkT(19, "ct2", "cm1"), mkT(21, "ct2", "cm2")}, base.Rules...)
 			}
+			// macros of several tokens, expanded by every transaction with its own request's values (the macro object belongs to the rule)
+			base.Rules = append(base.Rules, eRule{ID: 27, Ph: 1, Mk: "-", Rt: "-", Sa: "-", Sev: -1, Tags: []string{}, Links: []eLink{{Tg: []eTarget{}, Tfs: []string{}, NA: []eNAct{
+				{N: "setvar", K: gen.Field("mm"), V: gen.Field("p-%{args_get.a}-%{args_get.ip}-%{args_get.b}-s")},
+				{N: "setvar", K: gen.Field("mn"), V: gen.Field("%{args_get.b}:%{args_get.a}:%{args_get.trig}")}}}}})
 			audited := i%4 == 1
 			if audited {
 				// audit log On; some requests change their own audit parts / engine at run time (relative and absolute forms)
